@@ -230,7 +230,7 @@ func run(args []string) error {
 			pre := px.VerifC26Dump()
 			t0 := time.Now().Unix()
 			var opS, outS, kind string
-			switch k := r.Intn(20); {
+			switch k := r.Intn(25); {
 			case k < 6: // AddPeer
 				a := pick()
 				err := px.AddPeer(a)
